@@ -64,9 +64,12 @@ pub const N_STATIC: u8 = 3;
 /// Second expansions of the `get!` zones of `interp.rs` (`S0`..`S2`), in
 /// another module so that they are other static data: equality of static
 /// handles must be by value, not by address.
-pub static T0: jiff::tz::TimeZone = jiff::tz::get!("America/New_York");
-pub static T1: jiff::tz::TimeZone = jiff::tz::get!("Europe/Dublin");
-pub static T2: jiff::tz::TimeZone = jiff::tz::get!("Asia/Kolkata");
+/// They are also spelled in other ASCII cases than the tz database spells
+/// them: `get!` looks names up case-insensitively, and the zone it builds is
+/// the database's, under the database's name.
+pub static T0: jiff::tz::TimeZone = jiff::tz::get!("america/new_york");
+pub static T1: jiff::tz::TimeZone = jiff::tz::get!("EUROPE/DUBLIN");
+pub static T2: jiff::tz::TimeZone = jiff::tz::get!("asia/KOLKATA");
 
 #[derive(Clone, Debug, PartialEq, Eq, Hash, Serialize, Deserialize)]
 pub enum Spec {
